@@ -278,4 +278,132 @@ theorem payStep'_comm (blocked : String → Bool) (a b : LpEntry) (s : PayState)
     simp only [t3, t4]
     rw [pay_comm s.bank a.addr b.addr a.total b.total]
 
+
+/-! ### D. keyed iterations -/
+
+theorem auth_touch_of_has (a : Auth) (x : String) (h : a.hasAcct x = true) : a.touch x = a := by
+  unfold Auth.touch; simp [h]
+
+theorem auth_touch_list_id (l : List String) (a : Auth) (h : ∀ x ∈ l, a.hasAcct x = true) :
+    l.foldl Auth.touch a = a := by
+  induction l with
+  | nil => rfl
+  | cons x l ih =>
+    simp only [List.foldl_cons]
+    rw [auth_touch_of_has a x (h x (List.mem_cons_self))]
+    exact ih (fun y hy => h y (List.mem_cons_of_mem _ hy))
+
+theorem keyedStep_of_has {κ ν : Type} [DecidableEq κ] (g : κ → ν → Option ν) (paid : κ → ν → List String)
+    (s : KeyedState κ ν) (k : κ) (h : ∀ k v x, x ∈ paid k v → s.auth.hasAcct x = true) :
+    keyedStep g paid s k = (g k (s.comp k)).map (fun v => { comp := upd s.comp k v, auth := s.auth }) := by
+  unfold keyedStep
+  rw [auth_touch_list_id _ _ (fun x hx => h k (s.comp k) x hx)]
+
+theorem keyedStep_comm {κ ν : Type} [DecidableEq κ] (g : κ → ν → Option ν) (paid : κ → ν → List String)
+    (k k' : κ) (hne : k ≠ k') (s : KeyedState κ ν) (h : ∀ k v x, x ∈ paid k v → s.auth.hasAcct x = true) :
+    (keyedStep g paid s k).bind (fun s' => keyedStep g paid s' k') =
+    (keyedStep g paid s k').bind (fun s' => keyedStep g paid s' k) := by
+  rw [keyedStep_of_has g paid s k h, keyedStep_of_has g paid s k' h]
+  have hne' : k' ≠ k := fun e => hne e.symm
+  have step : ∀ (c : κ → ν) (j : κ), keyedStep g paid ⟨c, s.auth⟩ j =
+      (g j (c j)).map (fun v => { comp := upd c j v, auth := s.auth }) :=
+    fun c j => keyedStep_of_has g paid ⟨c, s.auth⟩ j h
+  cases h1 : g k (s.comp k) with
+  | none =>
+    cases h2 : g k' (s.comp k') with
+    | none => rfl
+    | some v' =>
+      simp only [Option.map_none, Option.bind_none, Option.map_some, Option.bind_some]
+      rw [step]
+      simp [upd_other _ _ hne, h1]
+  | some v =>
+    simp only [Option.map_some, Option.bind_some]
+    rw [step]
+    simp only [upd_other _ _ hne']
+    cases h2 : g k' (s.comp k') with
+    | none => simp
+    | some v' =>
+      simp only [Option.map_some, Option.bind_some]
+      rw [step]
+      simp [upd_other _ _ hne, h1, upd_comm s.comp v v' hne]
+
+/-! ### E. the tally -/
+
+theorem tally_fold_tot (l : List ClaimGroup) (t : Tally) :
+    (l.foldl tallyStep t).tot = t.tot + (l.map (·.power)).sum := by
+  induction l generalizing t with
+  | nil => simp
+  | cons g l ih =>
+    simp only [List.foldl_cons, List.map_cons, List.sum_cons]
+    rw [ih]
+    unfold tallyStep
+    split <;> simp <;> omega
+
+/-- what the fold knows about its result: the power is an upper bound of every group, and the
+    reported claim belongs to a group of exactly that power (or nothing beat the start value) -/
+theorem tally_fold_spec (l : List ClaimGroup) (t : Tally) :
+    let T := l.foldl tallyStep t
+    t.hp ≤ T.hp ∧ (∀ g ∈ l, (g.power : Int) ≤ T.hp) ∧
+    ((T.hp = t.hp ∧ T.claim = t.claim) ∨ (∃ g ∈ l, (g.power : Int) = T.hp ∧ g.content = T.claim)) := by
+  induction l generalizing t with
+  | nil => simp
+  | cons g l ih =>
+    simp only [List.foldl_cons]
+    have := ih (tallyStep t g)
+    obtain ⟨h1, h2, h3⟩ := this
+    have hstep : t.hp ≤ (tallyStep t g).hp ∧ (g.power : Int) ≤ (tallyStep t g).hp ∧
+        (((tallyStep t g).hp = t.hp ∧ (tallyStep t g).claim = t.claim) ∨
+         ((g.power : Int) = (tallyStep t g).hp ∧ g.content = (tallyStep t g).claim)) := by
+      unfold tallyStep
+      split <;> simp <;> omega
+    obtain ⟨s1, s2, s3⟩ := hstep
+    refine ⟨by omega, ?_, ?_⟩
+    · intro x hx
+      rcases List.mem_cons.mp hx with rfl | hx
+      · omega
+      · exact h2 x hx
+    · rcases h3 with ⟨e1, e2⟩ | ⟨x, hx, e1, e2⟩
+      · rcases s3 with ⟨f1, f2⟩ | ⟨f1, f2⟩
+        · left; exact ⟨by omega, by rw [e2, f2]⟩
+        · right; exact ⟨g, List.mem_cons_self, by omega, by rw [e2, f2]⟩
+      · right; exact ⟨x, List.mem_cons_of_mem _ hx, e1, e2⟩
+
+theorem le_sum_of_mem (l : List ClaimGroup) (c : ClaimGroup) (hc : c ∈ l) : c.power ≤ (l.map (·.power)).sum := by
+  induction l with
+  | nil => cases hc
+  | cons y l ih =>
+    simp only [List.map_cons, List.sum_cons]
+    rcases List.mem_cons.mp hc with rfl | hc
+    · omega
+    · have := ih hc
+      omega
+
+theorem two_le_sum (l : List ClaimGroup) (a b : ClaimGroup) (ha : a ∈ l) (hb : b ∈ l) (hne : a ≠ b) :
+    a.power + b.power ≤ (l.map (·.power)).sum := by
+  induction l with
+  | nil => cases ha
+  | cons x l ih =>
+    simp only [List.map_cons, List.sum_cons]
+    rcases List.mem_cons.mp ha with rfl | ha' <;> rcases List.mem_cons.mp hb with rfl | hb'
+    · exact absurd rfl hne
+    · have := le_sum_of_mem l b hb'; omega
+    · have := le_sum_of_mem l a ha'; omega
+    · have := ih ha' hb'; omega
+
+/-! ### F. partition -/
+
+theorem partition_fold {α : Type} (key : α → String) (lps : List α) (m : String → List α) (a : String) :
+    (lps.foldl (fun m lp => upd m (key lp) (m (key lp) ++ [lp])) m) a = m a ++ lps.filter (fun lp => key lp = a) := by
+  induction lps generalizing m with
+  | nil => simp
+  | cons x l ih =>
+    simp only [List.foldl_cons]
+    rw [ih]
+    unfold upd
+    by_cases h : key x = a
+    · subst h
+      simp [List.filter_cons]
+    · have h' : ¬ a = key x := fun e => h e.symm
+      simp [List.filter_cons, h, h']
+
 end Sif.Det
